@@ -23,13 +23,23 @@ func (r *rewriter) hookPass() bool {
 	mapWrites := map[ast.Expr]bool{}
 	skip := map[ast.Expr]bool{}
 	mapRanges := map[*ast.RangeStmt]bool{}
+	identWrites := map[*ast.Ident]bool{} // package-level variables in write position
 
 	markLHS := func(e ast.Expr) {
 		e = unparen(e)
 		switch x := e.(type) {
+		case *ast.Ident:
+			identWrites[x] = true
 		case *ast.SelectorExpr:
 			writes[x] = true
 		case *ast.IndexExpr:
+			if id, ok := unparen(x.X).(*ast.Ident); ok {
+				if t := r.typeOf(id); t != nil {
+					if _, isMap := t.Underlying().(*types.Map); isMap {
+						identWrites[id] = true
+					}
+				}
+			}
 			if s, ok := unparen(x.X).(*ast.SelectorExpr); ok {
 				if t := r.typeOf(s); t != nil {
 					if _, isMap := t.Underlying().(*types.Map); isMap {
@@ -54,6 +64,9 @@ func (r *rewriter) hookPass() bool {
 				if _, isB := r.info.Uses[id].(*types.Builtin); isB {
 					if s, ok := unparen(x.Args[0]).(*ast.SelectorExpr); ok {
 						mapWrites[s] = true
+					}
+					if id, ok := unparen(x.Args[0]).(*ast.Ident); ok {
+						identWrites[id] = true
 					}
 				}
 			}
@@ -101,6 +114,57 @@ func (r *rewriter) hookPass() bool {
 			}
 			n.X = r.call("MapIter", n.X)
 			r.st.MapRanges++
+			changed = true
+		case *ast.Ident:
+			if !*hooks || !*hookGlobals {
+				return true
+			}
+			v, ok := r.info.Uses[n].(*types.Var)
+			if !ok || v.IsField() || v.Pkg() == nil || v.Parent() != v.Pkg().Scope() || !strings.HasPrefix(v.Pkg().Path(), modPrefix) {
+				return true // only package-level variables of the module
+			}
+			if tv, ok := r.info.Types[n]; !ok || !tv.Addressable() {
+				return true
+			}
+			switch p := c.Parent().(type) {
+			case *ast.UnaryExpr:
+				if p.Op == token.AND {
+					return true
+				}
+			case *ast.SelectorExpr:
+				if p.Sel == n {
+					return true // pkg.Var written with a qualifier: the qualified form is left alone
+				}
+				if p.X == n {
+					if ps, ok := r.info.Selections[p]; ok && ps.Kind() != types.FieldVal {
+						// method call on the variable: pointer-receiver methods (mutex, pool, sync.Map) synchronise by themselves
+						if f, ok := ps.Obj().(*types.Func); ok {
+							if sig, ok := f.Type().(*types.Signature); ok && sig.Recv() != nil {
+								if _, ptrRecv := sig.Recv().Type().(*types.Pointer); ptrRecv {
+									if _, isPtr := v.Type().Underlying().(*types.Pointer); !isPtr {
+										return true
+									}
+								}
+							}
+						}
+					} else if ok {
+						return true // x.field: the field access is hooked, not the struct variable as a whole
+					}
+				}
+			case *ast.KeyValueExpr:
+				if p.Key == n {
+					return true
+				}
+			case *ast.ValueSpec:
+				return true
+			}
+			fn := "R"
+			if identWrites[n] {
+				fn = "W"
+			}
+			c.Replace(&ast.StarExpr{X: r.call(fn, &ast.UnaryExpr{Op: token.AND, X: ast.NewIdent(n.Name)},
+				&ast.BasicLit{Kind: token.STRING, Value: strconv.Quote(v.Pkg().Name() + "." + n.Name)})})
+			r.st.FieldHooks++
 			changed = true
 		case *ast.SelectorExpr:
 			if !*hooks {
